@@ -24,6 +24,10 @@ fn get_instant() -> &'static Instant {
 // get the current wall clock in ns
 #[inline]
 pub fn now() -> u64 {
+    #[cfg(may_verif)]
+    if let Some(t) = crate::verif::now_ns() {
+        return t;
+    }
     // we need a Monotonic Clock here
     get_instant().elapsed().as_nanos() as u64
 }
@@ -123,6 +127,8 @@ impl<T> TimeOutList<T> {
     pub fn add_timer(&self, dur: Duration, data: T) -> (TimeoutHandle<T>, bool) {
         let interval = dur.as_nanos() as u64;
         let time = now() + interval;
+        #[cfg(may_verif)]
+        crate::verif::note("timer.add", time as usize, interval as usize);
         //println!("add timer = {:?}", time);
 
         let timeout = TimeoutData { time, data };
@@ -278,6 +284,8 @@ impl<T> TimerThread<T> {
 
     // the timer thread function
     pub fn run<F: Fn(T)>(&self, f: &F) {
+        #[cfg(may_verif)]
+        use crate::verif::vthread as thread;
         let current_thread = Arc::new(thread::current());
         loop {
             while let Some(h) = self.remove_list.pop() {
